@@ -50,11 +50,11 @@ Definition sc1 (stop : option Z) (deadline : option Z) (maxel : Z) : scenario :=
      sc_tie := fun _ => [WCtx; WStop; WTimer] |}.
 
 Definition script1 : list attempt :=
-  [ {| a_dur := 10 * ms; a_res := RErr (echain [LWrap; LPartial SLogs [2; 3; 3]]) |};          (* partial: resend 2,3,3 *)
-    {| a_dur := 10 * ms; a_res := RErr (echain [LThrottle (70 * ms); LPartial STraces [9]]) |}; (* throttle; foreign data ignored *)
-    {| a_dur := 90 * ms; a_res := ROk |};                                              (* slower than the 50 ms timeout *)
-    {| a_dur := 10 * ms; a_res := RErr (echain [LPartial SLogs [3]; LPerm]) |};                 (* permanent deep in the chain *)
-    {| a_dur := 10 * ms; a_res := ROk |} ].
+  [ {| a_dur := 10 * ms; a_res := RErr (echain [LWrap; LPartial SLogs [2; 3; 3]]); a_ignores_ctx := false |};          (* partial: resend 2,3,3 *)
+    {| a_dur := 10 * ms; a_res := RErr (echain [LThrottle (70 * ms); LPartial STraces [9]]); a_ignores_ctx := false |}; (* throttle; foreign data ignored *)
+    {| a_dur := 90 * ms; a_res := ROk; a_ignores_ctx := false |};                                              (* slower than the 50 ms timeout *)
+    {| a_dur := 10 * ms; a_res := RErr (echain [LPartial SLogs [3]; LPerm]); a_ignores_ctx := false |};                 (* permanent deep in the chain *)
+    {| a_dur := 10 * ms; a_res := ROk; a_ignores_ctx := false |} ].
 
 (* starts, payloads and delays of the attempts; verdict *)
 Example ex_run1 :
@@ -145,7 +145,7 @@ Proof. vm_compute. repeat split; reflexivity. Qed.
 
 (* a fan-out exporter reports Join(transient, permanent): exactly one attempt, permanent verdict *)
 Example ex_join_permanent_run :
-  let script := [ {| a_dur := 10 * ms; a_res := RErr (EJoin [EBase; echain [LPerm]]) |}; {| a_dur := 10 * ms; a_res := ROk |} ] in
+  let script := [ {| a_dur := 10 * ms; a_res := RErr (EJoin [EBase; echain [LPerm]]); a_ignores_ctx := false |}; {| a_dur := 10 * ms; a_res := ROk; a_ignores_ctx := false |} ] in
   (length (steps_of (sc1 None None 0) script), verdict_of (sc1 None None 0) script,
    final_is_permanent (sc1 None None 0) script) = (1%nat, VPermanent, true).
 Proof. vm_compute. reflexivity. Qed.
@@ -170,7 +170,7 @@ Proof. vm_compute. reflexivity. Qed.
 (* the third attempt of script1 (90 ms against a 50 ms timeout) is cut by its context: hypotheses of
    context_expiry_is_transient, and the run goes on after it *)
 Example ex_ctx_expiry :
-  att_done (sc1 None None 0) (110 * ms) = Some (160 * ms) /\ 160 * ms < 110 * ms + 90 * ms /\
+  a_ignores_ctx (nth 2 script1 ok_attempt) = false /\ att_done (sc1 None None 0) (110 * ms) = Some (160 * ms) /\ 160 * ms < 110 * ms + 90 * ms /\
   (length (steps_of (sc1 None None 0) script1) > 3)%nat.
 Proof. vm_compute. repeat split; try reflexivity; lia. Qed.
 
@@ -201,3 +201,13 @@ Example ex_link_rejects :
   violations_core sc true script1 (observe_atts sc l) (map (fun d => d - 1) (observe_delays l)) (observe_final sc script1) <> [] /\
   violations_core sc true script1 (observe_atts sc l) (observe_delays l) [0; 0; 0] <> [].
 Proof. vm_compute. repeat split; discriminate. Qed.
+
+(* ---- a backend that ignores cancellation: the third attempt of script1 (90 ms against the 50 ms timeout) now
+   answers Ok at 200 ms, after its context ended at 160 ms: that success is final (3 attempts, VOk); with the
+   honouring backend the same attempt is cut at 160 ms and the run goes on (ex_run1: 4 attempts) ---------------------- *)
+Example ex_late_success :
+  let script := [ nth 0 script1 ok_attempt; nth 1 script1 ok_attempt;
+                  {| a_dur := 90 * ms; a_res := ROk; a_ignores_ctx := true |}; nth 3 script1 ok_attempt ] in
+  (map (fun st => (s_start st, s_end st)) (steps_of (sc1 None None 0) script), verdict_of (sc1 None None 0) script)
+  = ([(0, 10 * ms); (30 * ms, 40 * ms); (110 * ms, 200 * ms)], VOk).
+Proof. vm_compute. reflexivity. Qed.
